@@ -11,5 +11,5 @@ CONSTANTS
   Bug = "none"
   Emit = TRUE
   Configs <- ManyConfigs
-INVARIANTS JoinBeforeReturn PerCellAndFrame FrameAlways
+INVARIANTS FootprintsAreSets JoinBeforeReturn PerCellAndFrame FrameAlways
 CHECK_DEADLOCK FALSE
